@@ -399,6 +399,20 @@ class Interp:
                 return [("tuple", tuple(col)) for col in zip(*parts)]
         return None
 
+    @staticmethod
+    def _mapping_view(it):
+        """`for k, v in D.items()`, `for k in D.keys()`, `for v in D.values()` and `for k in D`
+        (with D[k]) are one iteration over the mapping D: (D, element builder) - the loop is
+        recorded over D itself and the view only decides what the target is bound to"""
+        if it[0] == "mcall" and it[2] in ("items", "keys", "values") and not it[3] and not it[4]:
+            base, view = it[1], it[2]
+            if view == "items":
+                return base, lambda e: ("tuple", (e, ("sub", base, e)))
+            if view == "values":
+                return base, lambda e: ("sub", base, e)
+            return base, lambda e: e
+        return it, None
+
     def _for(self, s, st, act):
         it = self._eval(s.iter, st, act)
         elts = self._literal_elements(it)
@@ -412,6 +426,7 @@ class Interp:
                     return None
             return st
         lid = self.new_id()
+        it, view = self._mapping_view(it)
         self.loops[lid] = {"iter": it, "func": act.fi.fq, "lineno": s.lineno,
                            "kind": "for", "target": ast.unparse(s.target), "pc": st.pc}
         assigned = self._assigned_names(s.body) - self._assigned_names([_expr_stmt(s.target)])
@@ -421,7 +436,9 @@ class Interp:
             if saved[n] is not None:
                 body_st.env[n] = ("loopcarried", n, lid)
         elem = ("elem", it, lid)
-        src = self._iter_source(it)
+        if view is not None:
+            elem = view(elem)
+        src = self._iter_source(it) if view is None else None
         if src is not None:
             # iterating a list that was built by one append in producer loops, or an identity
             # comprehension `[x for x in A if P(x)]`: visit the producer's element under the
@@ -950,12 +967,14 @@ class Interp:
                 gens.append((lid, self.loops[lid]["iter"], conds))
                 continue
             lid = self.new_id()
+            it, view = self._mapping_view(it)
             # later generators are nested in the earlier ones (tells apart two generators over the
             # same iterable, `for i, x in enumerate(f) for j, y in enumerate(f)`)
             self.loops[lid] = {"iter": it, "func": act.fi.fq, "lineno": e.lineno,
                                "kind": "comp", "target": ast.unparse(g.target),
                                "pc": st.pc + tuple(("inloop", l) for l, _, _ in gens)}
-            self._assign(g.target, ("elem", it, lid), inner, act, e)
+            el = ("elem", it, lid)
+            self._assign(g.target, view(el) if view is not None else el, inner, act, e)
             conds = tuple(self._eval(c, inner, act) for c in g.ifs)
             gens.append((lid, it, conds))
         elts = tuple(self._eval(x, inner, act) for x in elt_nodes)
